@@ -533,6 +533,19 @@ def _const_values(b, o, bb, ctx=None, depth=0):
                 return None
             out.extend(v)
         return out
+    if o[0] == "arg" and o[1] == 2 and "{closure" in b.name and ctx is not None:
+        # the parameter of a closure handed to an iterator adaptor over a constant array (`A.into_iter().filter(..).find_map(|x| ..)`):
+        # the elements of A
+        bname = re.sub(r"#(promoted|inlined|tmp)$", "", b.name)
+        m = re.match(r"(.*)::\{closure#\d+\}$", bname)
+        pb = b.mir.body(m.group(1)) if m else None
+        if pb is not None:
+            for cbb, t in pb.calls():
+                if not re.search(r"Iterator::(find_map|filter|filter_map|map|find|position|all|any|for_each|take_while|skip_while|map_while|inspect|flat_map)$", callee(t)[0] or ""):
+                    continue
+                args = [pb.origin(a) for a in t["args"]]
+                if len(args) == 2 and args[1][0] == "agg" and args[1][1] == ("closure", bname):
+                    return _iter_source_consts(pb, args[0], ctx)
     # element of an iteration over a constant array: next(into_iter(const A)) as Some.0 / next(iter(&A))
     if o[0] == "field" and o[1][0] == "downcast" and o[1][3] == "Some" and o[1][1][0] == "call" and re.search(r"Iterator::next$", o[1][1][1] or ""):
         it = o[1][1][3][0] if o[1][1][3] else None
@@ -554,6 +567,32 @@ def _const_values(b, o, bb, ctx=None, depth=0):
                     elems = v.get("elems")
                     if elems and all(x.get("t") in ("char", "int") for x in elems):
                         return [ord(x["v"]) if x["t"] == "char" else int(x["v"]) for x in elems]
+    return None
+
+
+def _iter_source_consts(pb, it, ctx):
+    """elements of the constant array an iterator chain runs over (through adaptors that only drop or reorder elements)"""
+    for _ in range(8):
+        while isinstance(it, tuple) and it and it[0] in ("ref", "deref"):
+            it = it[1]
+        if not (isinstance(it, tuple) and it and it[0] == "call" and it[3]):
+            return None
+        nm = it[1] or ""
+        if re.search(r"IntoIterator::into_iter$|<impl \[T\]>::iter$|::iter$", nm):
+            src = it[3][0]
+            while isinstance(src, tuple) and src and src[0] in ("ref", "deref", "cast"):
+                src = src[4] if src[0] == "cast" else src[1]
+            if isinstance(src, tuple) and src[0] == "const" and isinstance(src[2], str):
+                cs = ctx.ast.const(src[2].split("::")[-1])
+                if len(cs) == 1:
+                    elems = cs[0][3]["value"].get("elems")
+                    if elems and all(x.get("t") in ("char", "int") for x in elems):
+                        return [ord(x["v"]) if x["t"] == "char" else int(x["v"]) for x in elems]
+            return None
+        if re.search(r"Iterator::(filter|skip|take|rev|copied|cloned|skip_while|take_while|step_by|peekable|fuse|by_ref|inspect)$", nm):
+            it = it[3][0]
+            continue
+        return None
     return None
 
 
